@@ -253,9 +253,10 @@ class CuckooWorld(Scenario):
             return "skip"
         # fan-out: same operation from a deep-copied pre-state under other decision tapes
         fan = step.get("fan") or []
-        if (op == "add" and self.cfg.get("fan_all") and self.fans_left > 0 and self.f.capacity <= 64
-                and 2 * self.f.bucket_size ** min(self.cfg["max_swaps"], 12) <= 256
-                and self.needs_kick(self.fp_of(step["k"]))):
+        small_tree = 2 * self.f.bucket_size ** min(self.cfg["max_swaps"], 12) <= 256
+        if (self.cfg.get("fan_all") and self.fans_left > 0 and self.f.capacity <= 64 and small_tree
+                and ((op == "add" and self.needs_kick(self.fp_of(step["k"])))
+                     or (op == "expand" and len(self.model) >= 2 and self.f.capacity * self.cfg["expansion_rate"] <= 64))):
             # enumerate ALL resolutions of this insertion's random choices from a deep-copied pre-state
             self.fans_left -= 1
             tape = []
